@@ -42,6 +42,9 @@ def shape_sig(view):
     return ">".join(out) if out else "bare"
 
 
+STRICT_SCOPE = False  # set by C09
+
+
 def run_case(doc_text, ops, mode, collect=None):
     """Replay a history.  Returns (failures [(sig, detail)], info)."""
     nima.reset_state()
@@ -98,6 +101,9 @@ def run_case(doc_text, ops, mode, collect=None):
             continue
         if pred != "ok":
             info["classes"].append("accepted-but-model-refuses:" + pred.reason)
+            if STRICT_SCOPE and pred.reason == "missing-scope-layer":
+                # C09: "deeper selectors fail when the layer does not exist"
+                fails.append((f"selector-beyond-the-layers-accepted|{op}:{cls}|{shape}", {"doc": cur[:400], "op": [op, path, value], "out": str(res)[:400]}))
             break
         model = m2
         info["ok_steps"] += 1
